@@ -215,7 +215,40 @@ def mat_cases(kernels, seed, tier, consts=None):
                     s = [(0x0101010101010101 if (t // blk) == (i // 6) % 3 else 0) for t in range(ns)]
             out.append(('mat', k, s, m))
             if i % 4 == 0 and ('spmv' in k or '4x12' in k):
-                out.append(('mat', k, s, m, 'ca'))      # in place: the output register is the first state register
+                out.append(('mat', k, s, m, ['ca', 'c1', 'c2'][(i // 4) % 3]))      # in place: the output register is the first / second / third state register
+        if k.startswith('dot'):
+            # the horizontal sum of the four lane results: unit coefficients in one block (zero elsewhere) pass four state
+            # words through as the lane values; the words are chosen so that their integer sum is k*2^64 + t with k = 1..3
+            # carries and t at p, at 2^64 - 3*2^32 .. 2^64, at 0 (each fold of the carries must itself be folded)
+            halves = 1 if ns == 12 else 2
+            for i in range(36 if tier == 'quick' else 600):
+                s = [0] * ns; m = [0] * nm
+                blk = i % 3
+                for h in range(halves):
+                    kc = 1 + (i + h) % 3
+                    t = [P - 2 + rng.below(5), M - 1 - rng.below(3 << 32), rng.below(4), P - 1 - rng.below(1 << 33), M - 1 - rng.below(4)][(i // 3 + h) % 5]
+                    hi = [M - 1 - rng.below(1 << 34) for _ in range(3)]
+                    tot = kc * M + t
+                    # kc lanes near 2^64, the others absorb the remainder
+                    lanes = hi[:kc]
+                    rest = tot - sum(lanes)
+                    free = 4 - kc
+                    if rest < 0 or rest > free * (M - 1):
+                        lanes = [M - 1] * 3; rest = 3 * M + (P - 1) - sum(lanes); free = 1
+                    for f in range(free):
+                        x = min(M - 1, rest) if f == free - 1 else min(M - 1, rest // (free - f))
+                        lanes.append(x); rest -= x
+                    r = rng.below(4); lanes = lanes[r:] + lanes[:r]
+                    for lane in range(4):
+                        if ns == 12:
+                            s[4 * blk + lane] = lanes[lane]; m[4 * blk + lane] = 1
+                        else:
+                            s[8 * blk + 4 * h + lane] = lanes[lane]; m[4 * blk + lane] = 1
+                if i % 2:
+                    # the same with the words as coefficients and unit states
+                    if ns == 12:
+                        s, m = [1 if m[j] else 0 for j in range(12)], [s[j] for j in range(12)]
+                out.append(('mat', k, s, m))
     return out
 
 
